@@ -248,7 +248,7 @@ inline model::MProp gds_prop(Rng& r, uint64_t attr, bool long_ok) {
     model::MVal v;
     v.kind = 3;
     int n = (int)r.range(1, 17);
-    if (long_ok && r.chance(0.05)) n = (int)r.range(100, 400);
+    if (long_ok && r.chance(0.05)) n = r.chance(0.4) ? (int)r.range(124, 130) : (int)r.range(100, 400);  // 126/128: the format's and the writer's limits
     if (r.chance(0.03)) n = 0;
     v.s = text(r, n, n, true);
     switch (r.below(6)) {
@@ -285,7 +285,7 @@ inline model::MVal any_val(Rng& r) {
             break;
         case 4:
             v.kind = 3;
-            v.s = text(r, 1, 20, true);  // a-string
+            v.s = r.chance(0.03) ? text(r, 126, 130, true) : text(r, 1, 20, true);  // a-string
             break;
         case 5: {
             v.kind = 3;  // b-string
@@ -548,7 +548,7 @@ inline model::MLabel label(Ctx& c) {
     model::MLabel l;
     Rng& r = c.r;
     l.text = text(r, 1, 16, true);
-    if (c.cfg.long_strings && r.chance(0.03)) l.text = text(r, 300, 3000, true);
+    if (c.cfg.long_strings && r.chance(0.03)) l.text = r.chance(0.3) ? text(r, 126, 129, true) : text(r, 300, 3000, true);  // 127/128: one- vs two-byte length
     if (c.cfg.long_strings && c.cfg.mode == canon::GDS && r.chance(0.01)) {
         // as long as one GDSII record can hold ("strings fit one record, < 65530 bytes")
         int n = (int)r.range(65500, 65529);
@@ -672,7 +672,7 @@ inline model::MLib library(Rng& r, const Cfg& cfg) {
             m.ext_cells.push_back(n);
         }
     }
-    bool big_done = false;
+    bool big_done = false, big_path_done = false;
     for (int i = 0; i < ncell; i++) {
         model::MCell& cell = m.cells[i];
         // swarm: each cell draws its own element mix
@@ -686,6 +686,24 @@ inline model::MLib library(Rng& r, const Cfg& cfg) {
             if (cell.polys.back().pts.size() > 8190) big_done = true;
         }
         for (int k = 0; k < nw; k++) cell.paths.push_back(path(c));
+        if (cfg.big_polygons && !big_path_done && r.chance(0.05)) {
+            // a simple path above the 8190-point limit of one XY record
+            big_path_done = true;
+            model::MPath p;
+            p.layer = tagval(c);
+            p.dtype = tagval(c);
+            int n = (int)r.range(8189, 8400);
+            Pt cur = Pt{ongrid(c, -1000, 1000), ongrid(c, -1000, 1000)};
+            for (int k = 0; k < n; k++) {
+                p.spine.push_back(cur);
+                cur = Pt{cur.x + ongrid(c, 2, 6), cur.y + ((k & 1) ? -1 : 1) * ongrid(c, 2, 9)};
+            }
+            p.hw = ongrid(c, 1, 3);
+            p.end = r.chance(0.5) ? model::END_FLUSH : model::END_HALF;
+            p.scale_width = true;
+            p.props = props(c, true);
+            cell.paths.push_back(p);
+        }
         for (int k = 0; k < nl; k++) cell.labels.push_back(label(c));
         for (int k = 0; k < nr; k++) {
             bool ext = !m.ext_cells.empty() && (i + 1 >= ncell || r.chance(0.3));
